@@ -538,10 +538,12 @@ def param_case(draw):
 def single_preemption_cases(tier):
     """replies without latency, fixed two-thread scripts, exactly one forced thread switch at the k-th scheduling decision"""
     scripts = [
-        [[{'op': 'set', 'p': 0, 'gap': 0, 'same': False, 'value': 3, 'unknown': False}, {'op': 'state', 'p': 0, 'gap': 0, 'same': False, 'shared': True},
-          {'op': 'read', 'p': 1, 'gap': 0, 'same': False}],
-         [{'op': 'default', 'p': 0, 'gap': 0, 'same': False, 'shared': True}, {'op': 'set', 'p': 1, 'gap': 0, 'same': False, 'value': 4, 'unknown': False},
-          {'op': 'store', 'p': 0, 'gap': 0, 'same': False, 'shared': True}]],
+        [[{'op': 'default', 'p': 0, 'gap': 0, 'same': False, 'shared': True}, {'op': 'set', 'p': 1, 'gap': 0, 'same': False, 'value': 4, 'unknown': False},
+          {'op': 'store', 'p': 0, 'gap': 0, 'same': False, 'shared': True}],
+         [{'op': 'state', 'p': 0, 'gap': 0, 'same': False, 'shared': True}, {'op': 'set', 'p': 0, 'gap': 0, 'same': False, 'value': 3, 'unknown': False},
+          {'op': 'read', 'p': 1, 'gap': 0, 'same': False}]],
+        [[{'op': 'state', 'p': 0, 'gap': 0, 'same': False, 'shared': True}, {'op': 'clear', 'p': 0, 'gap': 0, 'same': False, 'shared': True}],
+         [{'op': 'default', 'p': 0, 'gap': 0, 'same': False, 'shared': True}, {'op': 'store', 'p': 0, 'gap': 0, 'same': False, 'shared': True}]],
         [[{'op': 'set', 'p': 2, 'gap': 0, 'same': False, 'value': 1, 'unknown': False}, {'op': 'set', 'p': 2, 'gap': 0, 'same': True, 'value': 2, 'unknown': False},
           {'op': 'read', 'p': 2, 'gap': 0, 'same': True}],
          [{'op': 'read', 'p': 3, 'gap': 0, 'same': False, 'notify': 7}, {'op': 'clear', 'p': 0, 'gap': 0, 'same': False}]],
